@@ -122,6 +122,16 @@ CHECKS = {
          "x both lengths x payload patterns; random frames; uplink_fields compared with the single-field semantics ('' = absent).",
          "Trusts the field positions of Annex 10 as transcribed in spec/Uplink.tla; uplink_fields' '' / False tokens are read as 'absent'.",
          "DESIGN.md section 5 C18"),
+ "C17": ("TLA+ state machine of aircraft motion, squitter/reply emission and batch processing (TrackerSM over the pure function "
+         "Tracker.Process with exact CPR arithmetic): TLC explores every interleaving/spacing to depth 6-7 from six start places and "
+         "checks Fresh, Gate, Accurate; seeded random histories run through the real Decode.process_raw are validated call by call by "
+         "TLC (Trace_Tracker) against the model and against the property's own predicates with ground truth",
+         "Spec: ~0.5M states / 9M transitions per start place (quick: 3 places at depth 6; thorough: 6 at depth 7). Code: 600 (thorough "
+         "12 000) histories of 8-30 (80) steps, 2-4 aircraft, every type code, Comm-B incl. unknown addresses, hex case upper/lower/"
+         "mixed, chunks spanning 0.5-250 s, long position-less stretches.",
+         "Trajectories within +-80 deg, surface <= 70 kt, a mode held > 10 s, landing within ~30 NM of the receiver, timestamps multiples "
+         "of 0.5 s; ground truth comes from the harness's integer CPR encoder, which TLC re-checks against the spec encoder on every squitter.",
+         "DESIGN.md section 5 C17"),
 }
 
 PENDING = {}
